@@ -73,20 +73,34 @@ def c12(tier):
 
 def c18(tier):
     if tier == 'quick':
-        return [sel('spellings', 'C18', SEL(2, 'triples', 'small', spell='all'), ['Emit'])]
+        return [sel('spellings', 'C18', SEL(2, 'triples', 'small', spell='all'), ['Emit']), roundtrip('roundtrip-atoms', 'C18', 'atoms')]
     return [sel('spellings', 'C18', SEL(2, 'pairs', 'small', spell='all'), ['Emit'], timeout=3600),
+            sel('all-64-spellings', 'C18', SEL(2, 'triples', 'small', spell='all64'), ['Emit'], timeout=7200),
+            roundtrip('roundtrip-atoms', 'C18', 'atoms'), roundtrip('roundtrip-steps', 'C18', 'steps', 7200),
             sel('spellings-funcs', 'C18', SEL(2, 'triples', 'full', funcs=True, spell='all'), ['Emit'], timeout=3600)]
+
+
+def apalache_lemma():
+    """the saturation lemma over unbounded integers (justifies the stand-in magnitudes used inside TLC)"""
+    def fn(pid, tier, sdir, harness, known):
+        t0 = time.time()
+        r = subprocess.run(['timeout', '600', 'apalache-mc', 'check', '--init=Init', '--inv=SatLemma', '--length=0', '--out-dir=' + os.path.join(sdir, 'apa-out'), 'Slice_apalache.tla'],
+                           cwd=sdir, capture_output=True, text=True)
+        if 'The outcome is: NoError' not in r.stdout:
+            raise Infra('Apalache did not discharge the saturation lemma:\n' + (r.stdout + r.stderr)[-1500:])
+        return dict(tlc_runs=[], counters={'apalache-lemma-SatLemma-discharged': 1, 'apalache-seconds': int(time.time() - t0)}, exhaustive=True)
+    return dict(kind='custom', fn=fn)
 
 
 def c11(tier):
     inv = ['LawMech', 'LawIndex', 'Emit']
     o = 'alias=C11,allspell=1'
     if tier == 'quick':
-        return [dict(kind='gen', module='Gen_Slice', label='slices', props='C01,C03', opts=o, timeout=600,
+        return [apalache_lemma(), dict(kind='gen', module='Gen_Slice', label='slices', props='C01,C03', opts=o, timeout=600,
                      constants=dict(Rng=7, MaxN=6, Bigs=True, Forms='plain'), invariants=inv),
                 dict(kind='gen', module='Gen_Slice', label='forms', props='C01,C03', opts=o, timeout=600,
                      constants=dict(Rng=3, MaxN=4, Bigs=True, Forms='all'), invariants=inv)]
-    return [dict(kind='gen', module='Gen_Slice', label='slices-all-forms', props='C01,C03', opts=o, timeout=3600,
+    return [apalache_lemma(), dict(kind='gen', module='Gen_Slice', label='slices-all-forms', props='C01,C03', opts=o, timeout=3600,
                  constants=dict(Rng=7, MaxN=6, Bigs=True, Forms='all'), invariants=inv),
             dict(kind='gen', module='Gen_Slice', label='wide', props='C01,C03', opts=o, timeout=3600,
                  constants=dict(Rng=12, MaxN=9, Bigs=True, Forms='plain'), invariants=inv)]
@@ -325,7 +339,7 @@ def c06_sched():
                       invariants=['MutualExclusion', 'PendingHasHolder', 'NoDeadlock', 'Emit'])
             ts, summ = vlib.run_gen(sdir, harness, st['module'], st['constants'], st['invariants'], 'C06',
                                     1800 if exhaustive else (8 if tier == 'quick' else 120), st['label'],
-                                    simulate=None if exhaustive else 1000000, depth=60, crashprop='C06', workers=None if exhaustive else 4,
+                                    simulate=None if exhaustive else 1000000, depth=60, crashprop='C06', workers=None if exhaustive else 4, hworkers=6,
                                     max_cases=0 if exhaustive else (400 if tier == 'quick' else 20000))
             runs.append({k: ts[k] for k in ('label', 'cmd', 'generated', 'distinct', 'wall_s')})
             cases += summ['cases']
@@ -535,6 +549,28 @@ def run(pid, tier, sdir, t0):
 
 def replay(path):
     v = json.load(open(path))
+    try:
+        fam = json.loads(v['case'].splitlines()[-1]).get('fam')
+    except Exception:
+        fam = None
+    if fam == 'race':
+        rb = vlib.build(race=True)
+        seed = json.loads(v['case'])['seed']
+        r = subprocess.run([rb, 'race', '-seed', str(seed), '-rounds', '6'], capture_output=True, text=True,
+                           env=dict(os.environ, GORACE='halt_on_error=1 history_size=3'))
+        if 'WARNING: DATA RACE' in r.stderr or r.returncode != 0:
+            print('REPRODUCED property=%s kind=%s\n%s' % (v['property'], v['kind'], r.stderr[:4000]))
+            return 1
+        out = json.loads(r.stdout) if r.stdout.strip().startswith('{') else {}
+        if out.get('mismatches'):
+            print('REPRODUCED property=%s: %s' % (v['property'], out['mismatches'][:3]))
+            return 1
+        print('not reproduced on the current tree (races are schedule dependent: run it a few times)')
+        return 0
+    if fam == 'trace':
+        print('recorded hook events around the rejected one: %s' % v['case'])
+        print('re-run `tools/check C06 quick` to record a new trace on the current tree')
+        return 0
     harness = vlib.build()
     sdir = vlib.scratch()
     try:
